@@ -199,8 +199,25 @@ func c08Case(t *core.T, big bool) {
 	v, _ := sim.ViewOfChain(wd.N.BestChain())
 	owned := wd.AllOwned()
 	pend := 0
+	forkedAfterPending := false
+	var pendList []*wire.MsgTx
+	// coins of transactions that pay two wallets come first (the outputs of one transaction are
+	// neighbours in every outpoint-keyed bucket)
+	walletsPaidBy := map[wire.Hash]map[int]bool{}
 	for _, o := range v.SortedOuts() {
-		if pend >= 3 {
+		if wi, mine := owned[o.Hash]; mine && o.HasHash {
+			if walletsPaidBy[o.OP.Hash] == nil {
+				walletsPaidBy[o.OP.Hash] = map[int]bool{}
+			}
+			walletsPaidBy[o.OP.Hash][wi] = true
+		}
+	}
+	cand := v.SortedOuts()
+	sort.SliceStable(cand, func(i, j int) bool {
+		return len(walletsPaidBy[cand[i].OP.Hash]) > 1 && len(walletsPaidBy[cand[j].OP.Hash]) <= 1
+	})
+	for _, o := range cand {
+		if pend >= 4 {
 			break
 		}
 		if _, mine := owned[o.Hash]; mine && o.HasHash && !o.Spent && o.Class == sim.ClassStd && v.Mature(o) && o.Value > 100000 {
@@ -208,6 +225,10 @@ func c08Case(t *core.T, big bool) {
 			ptx := sim.Spend([]wire.OutPoint{o.OP}, nil, []*wire.TxOut{wire.NewTxOut(o.Value/2, sim.P2WSH(h2)), wire.NewTxOut(o.Value/2-1000, sim.P2WSH(wd.StrangerPub()))}, t.R.Uint64()|1)
 			wd.W.DeliverTx(ptx)
 			wd.Logf("recv pending %s", ptx.TxHash().String()[:10])
+			pendList = append(pendList, ptx)
+			if len(walletsPaidBy[o.OP.Hash]) > 1 {
+				t.Count("pending_spends_of_a_coin_whose_transaction_pays_two_wallets", 1)
+			}
 			pend++
 		}
 	}
@@ -287,6 +308,7 @@ func c08Case(t *core.T, big bool) {
 			if t.R.Bool() && wd.N.Height() > 4 {
 				// a reorganisation that takes blocks with the victim's spends and payments off the chain
 				d := t.R.Range(1, 3)
+				forkedAfterPending = true
 				if nb, _, err := wd.Fork(d, d+t.R.Range(0, 1), 2); err == nil && nb != nil {
 					wd.W.Deliver(nb)
 					t.Count("cases_with_reorg_between_removal_phases", 1)
@@ -393,6 +415,7 @@ func c08Case(t *core.T, big bool) {
 	// coins off the chain again (whatever the removal left behind for them must not stop the follower)
 	if big && bigSpendBlocks > 2 {
 		d := bigSpendBlocks/2 + t.R.Range(0, 3)
+		forkedAfterPending = true
 		nb, _, err := wd.Fork(d, d+1, 0)
 		if err != nil {
 			t.Fatalf("fork: %v", err)
@@ -416,6 +439,7 @@ func c08Case(t *core.T, big bool) {
 		for i := 0; i < t.R.Range(0, 3); i++ {
 			h := int(wd.N.Height())
 			d := t.R.Range(1, minInt(6, h-2))
+			forkedAfterPending = true
 			nb, _, err := wd.Fork(d, d+t.R.Range(0, 1), 2)
 			if err != nil {
 				t.Fatalf("fork: %v", err)
@@ -447,6 +471,53 @@ func c08Case(t *core.T, big bool) {
 		sort.Strings(lines)
 		fail("survivor-changed-by-removal", "after the removal a surviving wallet differs from the ledger: "+strings.Join(lines, " | "))
 		return
+	}
+	// a pending transaction that is still pending (not mined, no input spent on the best chain) keeps
+	// the survivors' coins it spends flagged as spent by an unconfirmed transaction
+	// (only in histories without a reorganisation since the pending transactions were received: a
+	// transaction double-spent on a branch that was abandoned later is gone although the final chain
+	// shows no conflict)
+	if !forkedAfterPending {
+		vv, _ := sim.ViewOfChain(wd.N.BestChain())
+		for _, ptx := range pendList {
+			if _, mined := vv.Txs[ptx.TxHash()]; mined {
+				continue
+			}
+			alive := true
+			for _, in := range ptx.TxIn {
+				if o := vv.Outs[in.PreviousOutPoint]; o == nil || o.Spent {
+					alive = false
+				}
+			}
+			if !alive {
+				continue
+			}
+			for _, in := range ptx.TxIn {
+				o := vv.Outs[in.PreviousOutPoint]
+				for _, k := range survivors {
+					if !k.Owned[o.Hash] {
+						continue
+					}
+					if _, err := wd.W.W.UseWallet(k.ID); err != nil {
+						continue
+					}
+					us, err := wd.W.W.GetUtxo(nil)
+					if err != nil {
+						continue
+					}
+					t.Eval(1)
+					for _, l := range us {
+						for _, u := range l {
+							if u.TxId == in.PreviousOutPoint.Hash.String() && u.Vout == in.PreviousOutPoint.Index && !u.SpentByUnmined {
+								fail("survivor-changed-by-removal", fmt.Sprintf("after the removal coin %v of surviving wallet %s is no longer flagged as spent by the pending transaction %s, which is still pending", in.PreviousOutPoint, k.ID[:8], ptx.TxHash().String()[:10]))
+								return
+							}
+						}
+					}
+					t.Count("survivor_pending_flags_checked_after_removal", 1)
+				}
+			}
+		}
 	}
 	// the removed wallet cannot be selected
 	if _, err := wd.W.W.UseWallet(victim.ID); err == nil {
